@@ -40,7 +40,7 @@ def main():
         rc1, out1 = sh(f"git apply {os.path.join(src, 'patch.diff')}"); ran.append(("git apply patch.diff", rc1))
         rc2, out2 = sh("cargo build --workspace --offline"); ran.append(("patched: cargo build --workspace --offline", rc2))
         os.remove(os.path.join(WT, dest))
-        rc3, out3 = sh("cargo test --workspace --offline --no-fail-fast 2>&1 | tail -60"); ran.append(("patched: cargo test --workspace --offline (existing suite)", rc3))
+        rc3, out3 = sh("cargo test --workspace --offline --no-fail-fast 2>&1"); ran.append(("patched: cargo test --workspace --offline (existing suite)", rc3))
         npass = sum(int(l.split("ok.")[1].split("passed")[0]) for l in out3.splitlines() if l.startswith("test result: ok."))
         failed = [l for l in out3.splitlines() if l.startswith("test result: FAILED")]
         shutil.copy(os.path.join(src, "demo", demo_files[0]), os.path.join(WT, dest))
